@@ -9,6 +9,11 @@ CFG_DEFS = {
     # NB the macro name is inverted: USE_MEMORY_ALLOCATION_FREE=1 means malloc/free
     "heap": {"defines": ["-DUSE_MEMORY_ALLOCATION_FREE=0"]},
     "dtostre": {"defines": ["-DUSE_CUSTOM_DTOSTRE=1"]},
+    # the library compiled in strict ISO C90 mode (only the library: "libflags"): cc.h then finds neither snprintf nor strndup, so the
+    # double/float formatting goes through SCPI_dtostre without USE_CUSTOM_DTOSTRE and texts are duplicated by OUR_strndup
+    "ansi": {"defines": ["-DVF_LIB_USES_DTOSTRE=1"], "libflags": ["-ansi"]},
+    # plain char unsigned, as on ARM, AArch64 and PowerPC ABIs
+    "uchar": {"defines": ["-funsigned-char"]},
     # the documented extension point for application error codes (USE_USER_ERROR_LIST): descriptions with quotes, one of them
     # longer than the 255-character response limit with a quote where the cut falls
     "usererr": {"defines": ["-DUSE_USER_ERROR_LIST=1",
@@ -107,7 +112,7 @@ PROPS = {
                  "up to 262144 (complete, one byte short, followed by another parameter); long generated tokens",
         "level_note": "suffix program data is checked one-sidedly against the strict 488.2 syntax (the source documents a relaxed one); an incomplete block at the end of input swallows the rest (documented) and is accepted as such",
         "design_ref": "DESIGN.md section 4, C13",
-        "runs": simple("c13"),
+        "runs": simple("c13", cfgs=("default", "uchar")),
         "rule": "evaluations = recogniser calls (x3 buffer variants); strings distinct by construction; non-trivial = the reference accepts a non-empty proper prefix or rejects a string of >= 2 characters (longest-match and rollback cases)",
         "assumptions": COMMON_ASSUME + ["no mnemonic-length limit is asserted"],
     },
@@ -308,7 +313,7 @@ PROPS = {
         "level_note": "descriptions are taken from the library's own LIST_OF_ERRORS macro (the property is about framing, not wording); for an "
                       "empty device-dependent text both 'desc' and 'desc;' are accepted",
         "design_ref": "DESIGN.md section 4, C18",
-        "runs": simple("c18", cfgs=("default", "heap", "usererr"), quick_workers=18, thorough_workers=18),
+        "runs": simple("c18", cfgs=("default", "heap", "usererr", "ansi")),
         "rule": "case = (code, text, info length, heap placement); grid cases distinct by construction, random by hash; non-trivial = "
                 "description;text longer than 200 characters or text containing a double quote",
         "assumptions": COMMON_ASSUME + ["explicit info lengths never exceed strlen(text); texts are NUL-terminated C strings"],
@@ -335,7 +340,7 @@ PROPS = {
                  "the last requested digit for precisions 1..15, %g shape) A third of the random cases convert v, -v, v, -|v|, +|v| back to back.",
         "level_note": "trusts libstdc++'s std::to_chars (general and scientific formats) as the independent reference for correctly rounded digits",
         "design_ref": "DESIGN.md section 4, C16",
-        "runs": simple("c16", cfgs=("default", "dtostre")),
+        "runs": simple("c16", cfgs=("default", "dtostre", "ansi"), quick_workers=18, thorough_workers=18),
         "rule": "case = (value, float/double, precision, flags, API: *ToStr / Result* / SCPI_dtostre, build configuration); distinct by hash; "
                 "non-trivial = the value is not exactly representable in the requested digits (rounding needed) or its rounded digits contain a zero",
         "assumptions": COMMON_ASSUME + ["std::to_chars(double, general|scientific, precision) is correctly rounded"],
